@@ -197,6 +197,10 @@ def check(prog: Program, run: Run) -> None:
     run.rule("C06.G1", "literal attribute names used by the dispatch code exist", floor=1)
     _walk(prog, run)
     _isolation(prog, run)
+    # ... and what a candidate raises for bytes it cannot decode IS a DecodeError (anything else
+    # passes the per-candidate handlers and aborts the dispatch): C05's escape analysis
+    from . import c05
+    c05.escape_rule(prog, run, "C06.R2", info=False)
     _dedupe(prog, run)
     _prefixes(prog, run)
     _const_prefix(prog, run)
